@@ -1,9 +1,9 @@
-SPECIFICATION Spec
+SPECIFICATION SpecFast
 CONSTANTS
   M <- MCM
   SfSids <- MCSfSids
   ReqSeq <- MCReqSeq
-  BFamily <- BFamAll
+  BFamily <- BFamOneOff
   Export = FALSE
   CheckE4 = FALSE
   Dev_S20_RuleOffRaises = TRUE
